@@ -360,3 +360,42 @@ M("C19", "handler-list-mutable-default", F, "", "", "C19.R10",
          (F, REG, "        self.task_map.setdefault(command_id, handlers).append(func)\n")])
 M("C19", "handler-list-module-level-empty", F, "", "", "C19.R10",
   edits=[(F, CLS, "_NO_HANDLERS = []\n\n\n" + CLS), (F, REG, "        if command_id not in self.task_map:\n            self.task_map[command_id] = _NO_HANDLERS\n        self.task_map[command_id].append(func)\n")])
+
+# ---------------------------------------------------------------------------------------------- R2 _beacon_loop: producer / consumer split, failure of one handler contained in its iteration
+GET_TASK = "        while True:\n            task = self.get_task()\n"
+BL_DEF = "    def _beacon_loop(self):\n"
+EXC = "                    except Exception as e:\n                        logger.exception(e)\n"
+# the check-ins come from a lazy generator (one get_task per item asked for), with and without a local in the producer
+T("C19", "twin-loop-task-generator", F, "", "",
+  edits=[(F, BL_DEF, "    def _check_ins(self):\n        while True:\n            received = self.get_task()\n            yield received\n\n" + BL_DEF),
+         (F, GET_TASK, "        for task in self._check_ins():\n")])
+T("C19", "twin-loop-task-generator-local", F, "", "",
+  edits=[(F, BL_DEF, "    def _poll(self):\n        while True:\n            yield self.get_task()\n\n" + BL_DEF),
+         (F, GET_TASK, "        tasks = self._poll()\n        for task in tasks:\n")])
+# a producer the rule does not follow (the task passes through a queue): undecided, not violated
+T("C19", "twin-loop-task-producer-not-followed", F, "", "",
+  edits=[(F, BL_DEF, "    def _buffered(self):\n        pending = []\n        while True:\n            pending.append(self.get_task())\n            yield pending.pop(0)\n\n" + BL_DEF),
+         (F, GET_TASK, "        for task in self._buffered():\n")])
+# same containment, other spellings: explicit continue, bare `except Exception`, per-handler helper with its own try
+T("C19", "twin-loop-except-continue", F, EXC, "                    except Exception as e:\n                        logger.exception(e)\n                        continue\n")
+T("C19", "twin-loop-except-no-name", F, EXC, "                    except Exception:\n                        logger.exception(\"handler %r failed\", handler)\n")
+T("C19", "twin-loop-call-one-helper", F, "", "",
+  edits=[(F, BL_DEF, "    def _call_handler(self, handler, task):\n        try:\n            response = handler(task)\n            if response:\n                self.send_callback(*response)\n"
+          "        except Exception as e:\n            logger.exception(e)\n\n" + BL_DEF),
+         (F, "                if callable(handler):\n                    try:\n                        response = handler(task)\n                        if response:\n"
+          "                            self.send_callback(*response)\n" + EXC, "                if callable(handler):\n                    self._call_handler(handler, task)\n")])
+# the failure of one handler ends the iteration over the remaining handlers (other carriers than the seeded change)
+M("C19", "dispatch-stops-at-first-failing-handler", F, EXC, "                    except Exception as e:\n                        logger.exception(e)\n                        break\n", "C19.R2")
+M("C19", "dispatch-try-around-handler-loop", F, LOOP,
+  "            try:\n                for handler in handlers:\n                    if callable(handler):\n                        response = handler(task)\n                        if response:\n"
+  "                            self.send_callback(*response)\n            except Exception as e:\n                logger.exception(e)\n", "C19.R2")
+M("C19", "dispatch-handler-call-outside-try", F, LOOP,
+  "            for handler in handlers:\n                if callable(handler):\n                    response = handler(task)\n                    try:\n                        if response:\n"
+  "                            self.send_callback(*response)\n                    except Exception as e:\n                        logger.exception(e)\n", "C19.R2")
+M("C19", "dispatch-only-value-errors-contained", F, EXC, "                    except (ValueError, KeyError) as e:\n                        logger.exception(e)\n", "C19.R2")
+M("C19", "dispatch-failure-reraised", F, EXC, "                    except Exception as e:\n                        logger.exception(e)\n                        raise\n", "C19.R2")
+# the guarded call in a helper that hands the response back (two exits: not inlined into the loop -> undecided at most)
+T("C19", "twin-loop-safe-call-helper", F, "", "",
+  edits=[(F, BL_DEF, "    def _safe_call(self, handler, task):\n        try:\n            return handler(task)\n        except Exception as e:\n            logger.exception(e)\n            return None\n\n" + BL_DEF),
+         (F, "                    try:\n                        response = handler(task)\n                        if response:\n                            self.send_callback(*response)\n" + EXC,
+          "                    response = self._safe_call(handler, task)\n                    try:\n                        if response:\n                            self.send_callback(*response)\n" + EXC)])
